@@ -517,6 +517,7 @@ func mwRunSessions(h mocrelay.Handler, nsess int, ops []mwOp, now int64) []mwObs
 // ---------------------------------------------------------------- generators
 
 var mwSubIDs = []string{"a", "ab", "abc", "abcd"}
+
 // lengths are counted in bytes: "é" is 2 bytes and 1 character, "éé" 4 and 2, "日" 3 and 1, "😀" 4 and 1
 var mwContents = []string{"", "1", "12", "123", "1234", "ééééé", "é", "éé", "日", "😀"}
 
@@ -786,9 +787,9 @@ type c17Lim struct {
 }
 
 type c17Case struct {
-	K     string   `json:"k"`               // "stack" | "nip11"
-	Mws   []mwSpec `json:"mws,omitempty"`   // stack: outermost first
-	Doc   string   `json:"doc,omitempty"`   // nip11: "nil" (nil pointer) | "nolim" (no limitation block) | "lim"
+	K     string   `json:"k"`             // "stack" | "nip11"
+	Mws   []mwSpec `json:"mws,omitempty"` // stack: outermost first
+	Doc   string   `json:"doc,omitempty"` // nip11: "nil" (nil pointer) | "nolim" (no limitation block) | "lim"
 	Lim   *c17Lim  `json:"lim,omitempty"`
 	NSess int      `json:"nsess,omitempty"` // connection slots of the one middleware value (0 = 1)
 	Ops   []mwOp   `json:"ops"`
